@@ -512,6 +512,44 @@ fn corpus_grid() -> Vec<Vec<u8>> {
     out
 }
 
+/// Third frozen part (added after the seeded mutants C10-k/l): whole-message forms at real capacities.
+/// (a) n = cap-3 and cap-2 bytes of ASCII-only characters with 0, 2, 3, 4 bytes >= 128 spread over them, or
+/// all >= 128: plain ASCII against one Base256 field with a one- or two-byte length or the "to the end of
+/// the symbol" length, on both sides of the 250 byte limit; (b) one-class strings whose natural mode
+/// fills a symbol exactly, and the neighbouring lengths.  Never change without regenerating the list.
+fn corpus_long() -> Vec<Vec<u8>> {
+    let mut out = Vec::new();
+    for cap in [204usize, 280, 368, 456] {
+        for n in [cap - 3, cap - 2] {
+            for h in [0usize, 2, 3, 4, usize::MAX] {
+                let mut v: Vec<u8> = (0..n).map(|i| b"{|}~"[i % 4]).collect();
+                if h == usize::MAX {
+                    for (i, x) in v.iter_mut().enumerate() {
+                        *x = 0x80 + (i * 37 % 128) as u8;
+                    }
+                } else {
+                    for (j, at) in [0, n - 1, n / 2, n / 4].iter().take(h).enumerate() {
+                        v[*at] = [0xE9u8, 0xFF, 0x80, 0xC1][j];
+                    }
+                }
+                out.push(v);
+            }
+        }
+    }
+    let classes: [(&[u8], usize, usize); 5] = [(b"0123456789", 2, 1), (b"ABCDEFGHIJKLMNOPQRSTUVWXYZ", 3, 2), (b"abcdefghijklmnopqrstuvwxyz", 3, 2), (b"AB1*>C 2\rD", 3, 2), (b".,-/:;<=?@!#$%&()+", 4, 3)];
+    for cap in [22usize, 62, 144, 280] {
+        for (alphabet, chars, cws) in classes {
+            // characters that fill `cap` (digits) or `cap - 1` (latched modes) codewords
+            let room = if chars == 2 { cap } else { cap - 1 };
+            let n0 = room / cws * chars;
+            for n in n0.saturating_sub(2)..=n0 + 2 {
+                out.push((0..n).map(|i| alphabet[(i * 7 + n) % alphabet.len()]).collect());
+            }
+        }
+    }
+    out
+}
+
 fn extra(ctx: &Ctx) -> Map<String, Value> {
     let mut m = Map::new();
     let hits = ctx.known_hits.lock().unwrap();
@@ -560,12 +598,13 @@ fn run_stages(ctx: &Arc<Ctx>) {
     // the corpus is the same in both tiers: every sub-optimal input in it is listed by exact signature
     let sample = corpus_sample(10_000);
     let grid = corpus_grid();
+    let long = corpus_long();
     for (list, modes) in corpus_configs() {
-        for s in strings.iter().chain(sample.iter()).chain(grid.iter()) {
+        for s in strings.iter().chain(sample.iter()).chain(grid.iter()).chain(long.iter()) {
             corpus.push(EncCase { data: s.clone(), list, modes, macros: false, fnc1: false, eci: None, stratum: "corpus" });
         }
     }
-    ctx.run_enumerated("corpus", "enc", corpus, Some("fixed corpus: all strings of length <= 5 over a 7 letter alphabet + fixed-seed sample of 10 000 + 5 700 three-segment / boundary-byte strings, 3 configurations"), |c| check_with(c, Strictness::Corpus, ctx));
+    ctx.run_enumerated("corpus", "enc", corpus, Some("fixed corpus: all strings of length <= 5 over a 7 letter alphabet + fixed-seed sample of 10 000 + 5 700 three-segment / boundary-byte strings + 140 whole-message strings at real capacities, 3 configurations"), |c| check_with(c, Strictness::Corpus, ctx));
     // (b) seeded exploration
     let o = EncGenOpts { long_weight: 0, macro_weight: 0, allow_fnc1: false, allow_macros_flag: false, short_only: true, ..Default::default() };
     ctx.run_generated("explore", "enc-explore", ctx.cases(200_000, 3_000_000), || g_enc_case(o).prop_map(|mut c| { c.macros = false; c }), |c| check_with(c, Strictness::Explore, ctx));
